@@ -194,6 +194,25 @@ def run_case(seed, nfaults=14):
                 x, y = rng.choice(live)
                 x.err = y.err = errno.ECONNRESET
             act = 'reset'
+        elif r < 0.58:
+            # half-open: one end learns that the connection is gone, the other end notices nothing
+            live = [(x, y) for cid, (x, y) in w.net.conns.items() if x is not None and y is not None and x.state == 'est' and y.state == 'est']
+            if live:
+                x, y = rng.choice(live)
+                z = x if rng.random() < 0.7 else y      # mostly the dialling side (it will dial again)
+                z.err = errno.ECONNRESET
+                z.silent_close = True
+            act = 'halfopen'
+        elif r < 0.62:
+            # the forgotten end of a half-open connection finally learns of its death (late FIN / RST / keep-alive)
+            left = [x for x in w.net.socks.values() if x.state == 'est' and x.peer is not None and x.peer.state == 'closed' and not x.fin and not x.err]
+            if left:
+                x = rng.choice(left)
+                if rng.random() < 0.5:
+                    x.fin = True
+                else:
+                    x.err = errno.ECONNRESET
+            act = 'lateend'
         elif r < 0.65:
             if w.up[a]:
                 w.kill(a)
